@@ -300,6 +300,62 @@ def run_case(R, level, values, forms, rid=None, err_index=0, label="gen", max_si
     return len(resp)
 
 
+def repoll(R):
+    """A poller asks for the same 30 objects again and again while their values change;
+    every response has the same length and layout, and the datagrams of earlier polls are
+    gone (freed) by the time the next one arrives - anything remembered about a datagram
+    by its address or position would hand out the previous poll's values."""
+    import gc
+    import random as _random
+
+    rng = _random.Random(4242)
+    oids = [(1, 3, 6, 1, 4, 1, 4242, 3, i) for i in range(30)]
+
+    def values(poll):
+        out = []
+        for i in range(30):
+            k = i % 6
+            if k == 0:
+                out.append(("ip", bytes(rng.randint(1, 254) for _ in range(4))))
+            elif k == 1:
+                out.append(("int", rng.randint(2**24, 2**31 - 1)))
+            elif k == 2:
+                out.append(("c32", rng.randint(2**24, 2**31 - 1)))
+            elif k == 3:
+                out.append(("tt", rng.randint(2**24, 2**31 - 1)))
+            elif k == 4:
+                out.append(("str", bytes(rng.randint(32, 126) for _ in range(8))))
+            else:
+                out.append(("oid", (1, 3, 6, 1, 4, 1, rng.randint(1, 127), rng.randint(1, 127), rng.randint(1, 127))))
+        return out
+
+    for level in ("v1", "v2c", "v3-md5", "v3-sha1-priv"):
+        w = World(level, dict(zip(oids, values(0))))
+        w.prime()
+        sizes = set()
+        for poll in range(1, 9):
+            vals = values(poll)
+            w.agent.db.update(dict(zip(oids, vals)))
+            w.seam.reset(budget=4)
+            w.agent.requests.clear()
+            gc.collect()
+            res = rig.outcome(lambda: drive(w.client.multiget([OID(o) for o in oids])))
+            case = {"level": level, "values": rig.jsonable([[v[0], v[1]] for v in vals]), "forms": None, "rid": None, "err_index": 0, "label": "repoll-%d" % poll, "max_size": 65507}
+            R.case(("c06-repoll", level, poll), True)
+            if res[0] != "ok":
+                R.violation(case, "poll %d refused: %r" % (poll, res[1]), None)
+                break
+            sizes.add(len(w.seam.responses[-1]))
+            got = [to_tuple(v) for v in res[1]]
+            del res
+            if got != vals:
+                bad = [i for i, (g, x) in enumerate(zip(got, vals)) if g != x]
+                R.violation(case, "poll %d delivered %r at positions %r, the agent sent %r" % (poll, [got[i] for i in bad[:3]], bad[:5], [vals[i] for i in bad[:3]]), None)
+                break
+            R.mon["repolls_exact"] += 1
+        R.notes["set:repoll_response_sizes_%s" % level] = sorted(sizes)
+
+
 def run(R):
     contracts = typecontracts.attach_all()
     n = N_CASES[R.tier]
@@ -356,6 +412,8 @@ def run(R):
                 R.mon["max_datagram_sizes_not_reached"] += 1
             else:
                 R.mon["max_datagram_levels"] += 1
+    if R.shard == 3 % R.nshards:
+        repoll(R)
     typecontracts.report(R, contracts, decide=False)
     for c in contracts:
         c.detach()
@@ -363,6 +421,9 @@ def run(R):
 
 def replay(R, v):
     c = v["case"]
+    if str(c.get("label", "")).startswith("repoll"):
+        repoll(R)
+        return
 
     def fix(x):
         if isinstance(x, list):
